@@ -87,6 +87,9 @@ def run(ctx, model):
     logixdrv.run_reads(ctx, model, "C03")
     logixdrv.run_writes(ctx, model, "C03")
     logixdrv.run_altered(ctx, model, "C03")
+    # a request the controller refuses in the middle of its transfer is a refused request
+    from props import c02 as _c02
+    _c02.run_lost_fragment(ctx, model)
     from props import kernels
     kernels.run_plan(ctx, model, "C03")
     kernels.run_multi(ctx, model, "C03")
